@@ -182,11 +182,31 @@ def lineage_case(ctx, rng):
         M.create_death_rule("species", {"specie": "B", "threshold": 60, "comp": ">"}); feats.append("death-rule/species")
     M.py_initialize()
     recipe["features"] = feats
+    # "pickled before or after simulations and edits": what happened to the model before it is copied
+    history = rng.choice(["fresh", "simulated", "simulated-edited-simulated", "initialised-twice"])
+    recipe["history"] = history
     ctx.begin_case(recipe)
-    how = rng.choice(["pickle", "deepcopy"])
-    C = pickle.loads(pickle.dumps(M)) if how == "pickle" else copy.deepcopy(M)
-    seed = rng.randint(1, 10**6)
     T = np.arange(0, 4.0, 0.05)
+    if history != "fresh":
+        py_seed_random(5)
+        if history == "initialised-twice":
+            M.py_initialize()
+        else:
+            py_SimulateCellLineage(T[:20], Model=M)
+            if history == "simulated-edited-simulated":
+                M.create_parameter("zz_unused", 1.0)          # clears `initialized`: the next use re-initialises
+                py_SimulateCellLineage(T[:20], Model=M)
+    how = rng.choice(["pickle", "deepcopy", "pickle-of-pickle"])
+    C = copy.deepcopy(M) if how == "deepcopy" else pickle.loads(pickle.dumps(M))
+    if how == "pickle-of-pickle":
+        C = pickle.loads(pickle.dumps(C))
+    if (C.py_get_event_counts(), C.py_get_rule_counts()) != (M.py_get_event_counts(), M.py_get_rule_counts()):
+        ctx.evaluated()
+        ctx.violation("lineage-model-copy/counts", "a %s of a lineage model (%s; %s) reports event/rule counts %s, the original %s"
+                      % (how, feats, history, (C.py_get_event_counts(), C.py_get_rule_counts()), (M.py_get_event_counts(), M.py_get_rule_counts())),
+                      dict(recipe, how=how))
+        return
+    seed = rng.randint(1, 10**6)
 
     def lin(model):
         py_seed_random(seed)
@@ -236,7 +256,7 @@ def lineage_case(ctx, rng):
         if cs.py_get_state()[0] == 77.0:
             ctx.violation("cellstate-pickle/independence", "a copied cell state shares its state array with the original", recipe)
             return
-    ctx.nontriv(("lineage", how, tuple(feats), len(a) > 1))
+    ctx.nontriv(("lineage", how, history, tuple(feats), len(a) > 1))
     ctx.count("lineage:" + how)
 
 
